@@ -441,6 +441,16 @@ def check(ctx):
             is_call_to(x.args[1][0], L + "so3_log") and \
             x.args[1][0].args[1][0] is tm.param("r") or \
             is_call_to(x, ".magnitude")
+        if ang_ok and not conv and is_call_to(x, "numpy.linalg.norm"):
+            # the conversion may be delegated: so3_log(r, degrees=True)
+            # returns the rotation vector in degrees (|k v| = k |v|)
+            kw = dict(x.args[1][0].args[2])
+            dg = kw.get("degrees")
+            if dg is not None and tm.is_const(dg, True):
+                lr = Interp(prog, assume=_single).run(
+                    prog.func(L + "so3_log"),
+                    {"degrees": const(True), "return_skew": const(False)})
+                conv = is_call_to(lr.ret, "numpy.rad2deg", "numpy.degrees")
         arccos = any(is_call_to(y, "numpy.arccos", "math.acos")
                      for y in ret.walk()) and any(
             is_call_to(y, "numpy.trace") or (y.op == "attr" and
